@@ -8,7 +8,31 @@ pub const STR_ATOMS: &[&str] = &[
     "", "a", "b", "ab", "abc", "5", "05", "5.0", " 5", "5 ", "0", "-0", "-1", "1e3", "1E3", ".5", "5.", "+5", "NaN", "nan", "inf",
     "-inf", "infinity", "true", "false", "null", "mysterious", "ünï", "é", "日本", "🎸", "Ａ", "ﬁ", "\u{fffd}", "𝄞", "‘q’", "“dq”", "\u{1b}[2J", "\u{9b}", ",", ", ", " ", "aa", "aaa", "a,b", "a,,b",
     ",a,", "x", "Z", "z", "1", "2", "10", "9", "65", "0x10", "ff", "FF", "zz", "-ff", "1_0", "\t", "a b c", "hello world",
+    // every letter case of the non-finite spellings, exponents out of range, digits that are not ASCII
+    "Infinity", "INF", "Inf", "-Infinity", "+inf", "INFINITY", "NAN", "Nan", "1e400", "-1e400", "1e-400", "1e+2", "0.1e1", "١٢٣", "１２", "1,5", "0b11", "0o7", "e5", "1e", "--1", "+-1", "+", "-", ".", "1.2.3",
 ];
+
+/// numeric-looking strings at the edges of integer types, with more leading zeros than any integer type has digits
+pub const NUM_EDGES: &[&str] = &[
+    "18446744073709551615", "18446744073709551616", "18446744073709551617", "99999999999999999999", "100000000000000000000", "9223372036854775807", "9223372036854775808", "-9223372036854775808",
+    "-9223372036854775809", "9007199254740993", "4294967296", "4294967295", "2147483648", "340282366920938463463374607431768211456", "7fffffffffffffff", "8000000000000000", "-8000000000000000",
+    "ffffffffffffffff", "111111111111111111111111111111111111111111111111111111111111111", "1000000000000000000000000000000000000000000000000000000000000000", "zzzzzzzzzzzz", "1y2p0ij32e8e7", "1y2p0ij32e8e8",
+];
+
+/// byte lengths around the sizes buffers tend to have
+pub const SIZE_EDGES: &[usize] = &[31, 32, 33, 63, 64, 65, 66, 127, 128, 129, 255, 256, 257, 511, 512, 513, 1023, 1024, 1025, 2047, 2048, 2049, 4095, 4096, 4097, 8191, 8192, 8193];
+
+/// a string of exactly `bytes` bytes made of `unit` (1-4 bytes per character), padded with ASCII to the exact length
+pub fn sized_string(bytes: usize, unit: char) -> String {
+    let mut s = String::with_capacity(bytes);
+    while s.len() + unit.len_utf8() <= bytes {
+        s.push(unit);
+    }
+    while s.len() < bytes {
+        s.push('x');
+    }
+    s
+}
 
 pub fn gen_number_expr(t: &mut Tape) -> (Expr, String) {
     // boundaries and a spread of magnitudes; negatives via unary minus, non-finite via division
@@ -58,6 +82,18 @@ pub fn gen_number_expr(t: &mut Tape) -> (Expr, String) {
 }
 
 pub fn gen_string(t: &mut Tape) -> String {
+    // one string in 40 sits on a boundary: an exact byte length (of 1-, 2-, 3- or 4-byte characters), an integer-type
+    // edge, or digits behind 50-90 leading zeros
+    if t.chance(1, 40) {
+        return match t.pick(3) {
+            0 => sized_string(*t.choose(SIZE_EDGES), *t.choose(&['x', 'é', '日', '🎸'])),
+            1 => t.choose(NUM_EDGES).to_string(),
+            _ => {
+                let z = 50 + t.pick(41);
+                format!("{}{}{}", if t.chance(1, 5) { "-" } else { "" }, "0".repeat(z), *t.choose(&["101", "ff", "7", "12", "zz", "0", "1.5", "9223372036854775807"]))
+            }
+        };
+    }
     let n = 1 + t.weighted(&[50, 25, 14, 9, 2]);
     // now and then a long one (40-120 characters, mostly multi-byte): fixed-size buffers, truncated messages
     let n = if n == 5 { 20 + t.pick(40) } else { n };
